@@ -30,7 +30,7 @@ fn abstract_prefilter(h: &[u8]) -> Option<usize> {
         let c: usize = kani::any();
         if nx != usize::MAX {
             // an occurrence exists at nx >= pos: must return a candidate <= it
-            kani::assume(pos + c <= nx);
+            kani::assume(c <= nx - pos);
             Some(c)
         } else {
             let none: bool = kani::any();
@@ -360,23 +360,23 @@ pub mod subiter {
     }
 }
 
-inst!(fi_step_n0, [props=C08+C14 tier=quick cfg=x86std t=900 role=find-iter-step], 4, subiter::find_step::<0, 12>(1, 0, 12));
-inst!(fi_step_n1, [props=C08 xprops=C14 tier=quick cfg=x86std t=1500 role=find-iter-step], 14, subiter::find_step::<1, 12>(1, 12, 12));
-inst!(fi_step_n2_rk, [props=C08+C14 xprops=C05 tier=quick cfg=x86std+generic t=1500 role=find-iter-step], 14, subiter::find_step::<2, 12>(1, 0, 12));
-inst!(fri_step_n0, [props=C08+C14 tier=quick cfg=x86std t=900 role=rfind-iter-step], 4, subiter::rfind_step::<0, 12>(0, 12));
-inst!(fri_step_n2_rk, [props=C08 xprops=C05+C14 tier=quick cfg=x86std+generic t=1500 role=rfind-iter-step], 14, subiter::rfind_step::<2, 12>(0, 12));
-inst!(fi_trav_n0_5, [props=C08 xprops=C14 tier=quick cfg=x86std t=1500 role=find-iter-traversal], 10, subiter::traverse::<0, 5>(false, false));
-inst!(fi_trav_n2_6, [props=C08 xprops=C14 tier=quick cfg=x86std t=1500 role=find-iter-traversal], 11, subiter::traverse::<2, 6>(false, true));
-inst!(fri_trav_n0_5, [props=C08 xprops=C14 tier=quick cfg=x86std t=1500 role=rfind-iter-traversal], 10, subiter::traverse::<0, 5>(true, true));
-inst!(fri_trav_n2_6, [props=C08 xprops=C14 tier=quick cfg=x86std t=1500 role=rfind-iter-traversal], 11, subiter::traverse::<2, 6>(true, false));
-inst!(fi_trav_n1_7, [props=C08 xprops=C14 tier=thorough cfg=x86std t=3600 role=find-iter-traversal], 12, subiter::traverse::<1, 7>(false, false));
-inst!(fi_trav_n3_8, [props=C08 xprops=C14 tier=thorough cfg=x86std t=3600 role=find-iter-traversal], 13, subiter::traverse::<3, 8>(false, true));
-inst!(fri_trav_n3_8, [props=C08 xprops=C14 tier=thorough cfg=x86std t=3600 role=rfind-iter-traversal], 13, subiter::traverse::<3, 8>(true, true));
+inst!(fi_step_n0, [props=C08+C14 tier=quick cfg=x86std t=900 role=find-iter-step uw=@RK;@TWNEW;@TWOFF;with_ranker:6;oracle:6], 3, subiter::find_step::<0, 12>(1, 0, 12));
+inst!(fi_step_n1, [props=C08 xprops=C14 tier=quick cfg=x86std t=1500 role=find-iter-step uw=@RK;@TWNEW;@TWOFF;with_ranker:6;oracle:6;@MEMCHR], 3, subiter::find_step::<1, 12>(1, 12, 12));
+inst!(fi_step_n2_rk, [props=C08+C14 xprops=C05 tier=quick cfg=x86std+generic t=1500 role=find-iter-step uw=@RK;@TWNEW;@TWOFF;with_ranker:6;oracle:6;@PP], 3, subiter::find_step::<2, 12>(1, 0, 12));
+inst!(fri_step_n0, [props=C08+C14 tier=quick cfg=x86std t=900 role=rfind-iter-step uw=@RK;@TWNEW;@TWOFF;with_ranker:6;oracle:6], 3, subiter::rfind_step::<0, 12>(0, 12));
+inst!(fri_step_n2_rk, [props=C08 xprops=C05+C14 tier=quick cfg=x86std+generic t=1500 role=rfind-iter-step uw=@RK;@TWNEW;@TWOFF;with_ranker:6;oracle:6], 3, subiter::rfind_step::<2, 12>(0, 12));
+inst!(fi_trav_n0_5, [props=C08 xprops=C14 tier=quick cfg=x86std t=1500 role=find-iter-traversal uw=traverse:10;naive:8;@RK;@TWNEW;@TWOFF;with_ranker:6;oracle:6], 3, subiter::traverse::<0, 5>(false, false));
+inst!(fi_trav_n2_6, [props=C08 xprops=C14 tier=quick cfg=x86std t=1500 role=find-iter-traversal uw=traverse:11;naive:9;@RK;@TWNEW;@TWOFF;with_ranker:6;oracle:6;@PP], 3, subiter::traverse::<2, 6>(false, true));
+inst!(fri_trav_n0_5, [props=C08 xprops=C14 tier=quick cfg=x86std t=1500 role=rfind-iter-traversal uw=traverse:10;naive:8;@RK;@TWNEW;@TWOFF;with_ranker:6;oracle:6], 3, subiter::traverse::<0, 5>(true, true));
+inst!(fri_trav_n2_6, [props=C08 xprops=C14 tier=quick cfg=x86std t=1500 role=rfind-iter-traversal uw=traverse:11;naive:9;@RK;@TWNEW;@TWOFF;with_ranker:6;oracle:6;@PP], 3, subiter::traverse::<2, 6>(true, false));
+inst!(fi_trav_n1_7, [props=C08 xprops=C14 tier=thorough cfg=x86std t=3600 role=find-iter-traversal uw=traverse:12;naive:10;@RK;@TWNEW;@TWOFF;with_ranker:6;oracle:6;@MEMCHR], 3, subiter::traverse::<1, 7>(false, false));
+inst!(fi_trav_n3_8, [props=C08 xprops=C14 tier=thorough cfg=x86std t=3600 role=find-iter-traversal uw=traverse:13;naive:11;@RK;@TWNEW;@TWOFF;with_ranker:6;oracle:6;@PP], 3, subiter::traverse::<3, 8>(false, true));
+inst!(fri_trav_n3_8, [props=C08 xprops=C14 tier=thorough cfg=x86std t=3600 role=rfind-iter-traversal uw=traverse:13;naive:11;@RK;@TWNEW;@TWOFF;with_ranker:6;oracle:6;@PP], 3, subiter::traverse::<3, 8>(true, true));
 
 // ---------------------------------------------------------------------------
 // C16: a finder is a pure function of its needle
 
-#[cfg(kani)]
+#[cfg(all(kani, not(vcfg_x86none)))]
 pub mod purity {
     use super::*;
 
@@ -509,14 +509,22 @@ pub mod purity {
     }
 }
 
-inst!(pur_two_fwd_n2, [props=C16 xprops=C14 tier=quick cfg=x86std t=1500 role=two-searches], 12, purity::two_searches::<2, 9, 10>(1, false));
-inst!(pur_two_rev_n2, [props=C16 xprops=C14 tier=quick cfg=x86std t=1500 role=two-searches], 12, purity::two_searches::<2, 9, 10>(1, true));
-inst!(pur_copies_fwd_n2, [props=C16 xprops=C14 tier=quick cfg=x86std t=1500 role=finder-copies], 12, purity::copies::<2, 10>(1, false));
-inst!(pur_copies_rev_n2, [props=C16 xprops=C14 tier=quick cfg=x86std t=1500 role=finder-copies], 12, purity::copies::<2, 10>(1, true));
-inst!(pur_iter_copies_fwd_n0, [props=C16 xprops=C14 tier=quick cfg=x86std t=1500 role=iterator-copies], 6, purity::iter_copies::<0, 6>(false));
-inst!(pur_iter_copies_rev_n0, [props=C16 xprops=C14 tier=quick cfg=x86std t=1500 role=iterator-copies], 6, purity::iter_copies::<0, 6>(true));
-inst!(pur_iter_copies_fwd_n2, [props=C16 xprops=C14 tier=quick cfg=x86std t=1500 role=iterator-copies], 12, purity::iter_copies::<2, 9>(false));
-inst!(pur_iter_copies_rev_n2, [props=C16 xprops=C14 tier=quick cfg=x86std t=1500 role=iterator-copies], 12, purity::iter_copies::<2, 9>(true));
+#[cfg(not(vcfg_x86none))]
+inst!(pur_two_fwd_n2, [props=C16 xprops=C14 tier=quick cfg=x86std t=1500 role=two-searches uw=@RK;@TWNEW;@TWOFF;with_ranker:6;oracle:6;@PP;clone:6;from:6], 3, purity::two_searches::<2, 9, 10>(1, false));
+#[cfg(not(vcfg_x86none))]
+inst!(pur_two_rev_n2, [props=C16 xprops=C14 tier=quick cfg=x86std t=1500 role=two-searches uw=@RK;@TWNEW;@TWOFF;with_ranker:6;oracle:6;@PP;clone:6;from:6], 3, purity::two_searches::<2, 9, 10>(1, true));
+#[cfg(not(vcfg_x86none))]
+inst!(pur_copies_fwd_n2, [props=C16 xprops=C14 tier=quick cfg=x86std t=1500 role=finder-copies uw=@RK;@TWNEW;@TWOFF;with_ranker:6;oracle:6;@PP;clone:6;from:6], 3, purity::copies::<2, 10>(1, false));
+#[cfg(not(vcfg_x86none))]
+inst!(pur_copies_rev_n2, [props=C16 xprops=C14 tier=quick cfg=x86std t=1500 role=finder-copies uw=@RK;@TWNEW;@TWOFF;with_ranker:6;oracle:6;@PP;clone:6;from:6], 3, purity::copies::<2, 10>(1, true));
+#[cfg(not(vcfg_x86none))]
+inst!(pur_iter_copies_fwd_n0, [props=C16 xprops=C14 tier=quick cfg=x86std t=1500 role=iterator-copies uw=@RK;@TWNEW;@TWOFF;with_ranker:6;oracle:6;@PP;clone:6;from:6], 3, purity::iter_copies::<0, 6>(false));
+#[cfg(not(vcfg_x86none))]
+inst!(pur_iter_copies_rev_n0, [props=C16 xprops=C14 tier=quick cfg=x86std t=1500 role=iterator-copies uw=@RK;@TWNEW;@TWOFF;with_ranker:6;oracle:6;@PP;clone:6;from:6], 3, purity::iter_copies::<0, 6>(true));
+#[cfg(not(vcfg_x86none))]
+inst!(pur_iter_copies_fwd_n2, [props=C16 xprops=C14 tier=quick cfg=x86std t=1500 role=iterator-copies uw=@RK;@TWNEW;@TWOFF;with_ranker:6;oracle:6;@PP;clone:6;from:6], 3, purity::iter_copies::<2, 9>(false));
+#[cfg(not(vcfg_x86none))]
+inst!(pur_iter_copies_rev_n2, [props=C16 xprops=C14 tier=quick cfg=x86std t=1500 role=iterator-copies uw=@RK;@TWNEW;@TWOFF;with_ranker:6;oracle:6;@PP;clone:6;from:6], 3, purity::iter_copies::<2, 9>(true));
 
 // ---------------------------------------------------------------------------
 // C14: exactness of the documented packed-pair panic
@@ -643,13 +651,13 @@ inst!(mm_rk_rev, [props=C05 tier=quick cfg=x86std t=1500 role=mismatched-needle]
 inst!(mm_packed_g4, [props=C05 tier=quick cfg=x86std t=1500 role=mismatched-needle], 9, mismatch::packed_other_needle::<3, 12, 14>());
 
 // C10: nondeterministic ranker x both prefilter settings
-inst!(rank_n2_sse2, [props=C10+C03 xprops=C14 tier=quick cfg=x86std t=1800 role=nondet-ranker-packed uw=find_in_chunk:18;is_equal_raw:3;packedpair::Finder:3;rabinkarp::Finder::find_raw:22;Hash:5;rabinkarp::Finder::new:5;with_ranker:5;oracle:4], 4,
+inst!(rank_n2_sse2, [props=C10+C03 xprops=C14 tier=quick cfg=x86std t=1800 role=nondet-ranker-packed uw=@RK;@TWNEW;@TWOFF;with_ranker:6;oracle:6;@PP], 3,
     finder_nondet_ranker::<2, 20>(1, 0, 20));
-inst!(rank_n3_sse2, [props=C10+C03 xprops=C14 tier=quick cfg=x86std t=1800 role=nondet-ranker-packed uw=find_in_chunk:18;is_equal_raw:3;packedpair::Finder:3;rabinkarp::Finder::find_raw:22;Hash:5;rabinkarp::Finder::new:5;with_ranker:5;oracle:5], 4,
+inst!(rank_n3_sse2, [props=C10+C03 xprops=C14 tier=quick cfg=x86std t=1800 role=nondet-ranker-packed uw=@RK;@TWNEW;@TWOFF;with_ranker:6;oracle:6;@PP], 3,
     finder_nondet_ranker::<3, 20>(1, 0, 20));
-inst!(rank_n4_sse2, [props=C10+C03 xprops=C14 tier=thorough cfg=x86std t=3600 role=nondet-ranker-packed uw=find_in_chunk:18;is_equal_raw:3;packedpair::Finder:3;rabinkarp::Finder::find_raw:24;Hash:6;rabinkarp::Finder::new:6;with_ranker:6;oracle:6], 4,
+inst!(rank_n4_sse2, [props=C10+C03 xprops=C14 tier=thorough cfg=x86std t=3600 role=nondet-ranker-packed uw=@RK;@TWNEW;@TWOFF;with_ranker:6;oracle:6;@PP], 3,
     finder_nondet_ranker::<4, 22>(1, 0, 22));
-inst!(rank_n2_nosimd_rk, [props=C10+C03 xprops=C14 tier=quick cfg=generic t=1800 role=nondet-ranker-nosimd], 17,
+inst!(rank_n2_nosimd_rk, [props=C10+C03 xprops=C14 tier=quick cfg=generic t=1800 role=nondet-ranker-nosimd uw=@RK;@TWNEW;@TWOFF;with_ranker:6;oracle:6;find_prefilter.0:2;@MEMCHR], 3,
     finder_nondet_ranker::<2, 15>(0, 0, 15));
-inst!(rank_n2_nosimd_tw, [props=C10+C03 xprops=C14 tier=thorough cfg=generic t=7200 role=nondet-ranker-nosimd], 19,
+inst!(rank_n2_nosimd_tw, [props=C10+C03 xprops=C14 tier=thorough cfg=generic t=7200 role=nondet-ranker-nosimd uw=@RK;@TWNEW;_imp.0:19;_imp.1:4;_imp.2:4;with_ranker:6;oracle:6;find_prefilter.0:19;@MEMCHR], 3,
     finder_nondet_ranker::<2, 17>(0, 16, 17));
